@@ -325,3 +325,10 @@ pub mod verif_api {
         CountedIndex::new(wrap).wrap_at()
     }
 }
+
+#[cfg(multiqueue2_verif)]
+impl CountedIndex {
+    pub fn verif_addr(&self) -> usize {
+        &self.val as *const AtomicUsize as usize
+    }
+}
